@@ -75,6 +75,11 @@ type execRec struct {
 	responseSnap *remoteexecution.ExecuteResponse
 
 	reportedPos int
+
+	// ctx is the context Execute was called with; trace tells whether the
+	// instruction carried a W3C trace context.
+	ctx   context.Context
+	trace bool
 }
 
 // monitor holds all oracle state of one case. Every field is guarded by mu.
@@ -410,6 +415,12 @@ func (m *monitor) applyReply(rep syncReply) {
 	case "execute":
 		if m.cur != nil && !m.cur.returned {
 			m.situation("execute-while-executing")
+			if m.cur.trace {
+				m.situation("preempted-action-with-trace-context")
+			}
+		}
+		if rep.exec.trace {
+			m.situation("execute-with-trace-context")
 		}
 		if m.cur != nil && m.cur.returned && m.cur.reportedPos != posCompleted {
 			m.situation("completion-racing-reply")
@@ -433,6 +444,9 @@ func (m *monitor) applyReply(rep syncReply) {
 	case "idle":
 		if m.cur != nil && m.cur.returned && m.cur.reportedPos != posCompleted {
 			m.situation("completion-racing-reply")
+		}
+		if m.cur != nil && !m.cur.returned && m.cur.trace {
+			m.situation("preempted-action-with-trace-context")
 		}
 		m.cur = nil
 		m.mayThink = false
@@ -470,6 +484,18 @@ func (m *monitor) shutdownInHook(kind string) {
 	if m.active > 0 {
 		m.situation("shutdown-while-executing")
 	}
+}
+
+// preemptedButNotCancelled returns an execution the scheduler has replaced
+// (by idle or by another action) whose Execute call is still running with a
+// context that was never cancelled. mu held.
+func (m *monitor) preemptedButNotCancelled() *execRec {
+	for _, e := range m.execs {
+		if e.entered && !e.returned && e != m.cur && e.ctx != nil && e.ctx.Err() == nil {
+			return e
+		}
+	}
+	return nil
 }
 
 // checkTermination is called when the worker thread decides to terminate.
@@ -536,6 +562,7 @@ func (e fakeExecutor) Execute(ctx context.Context, filePool pool.FilePool, monit
 		m.violation("execute-called-twice-for-one-instruction", fmt.Sprintf("execution %d", rec.id))
 	}
 	rec.entered = true
+	rec.ctx = ctx
 	m.active++
 	m.logf("exec %d (%s) enters Execute; active=%d", rec.id, rec.digest.GetHash()[:8], m.active)
 	m.histf("E+%d", m.active)
